@@ -123,12 +123,13 @@ Proof.
     match goal with |- context [if ?d then del_subscription _ _ else _] => destruct d end; cbn [fst snd]; lia.
   - unfold broker_remove_session. destruct (nget (b_sess b) sid); cbn [fst snd]; [|lia]. apply rs_fold_pg.
   - unfold publish. destruct (negb (valid_uri (c_strict cfg) "" topic)); cbn [fst snd]; [lia|].
+    destruct (publish_aborts cfg pub opts topic); cbn [fst snd]; [lia|].
     destruct (opt_bool opts "disclose_me" && negb (c_disclose cfg)); cbn [fst snd]; [lia|].
     destruct (fold_left _ (matching_subs b topic) (b, [])). cbn [fst snd]. lia.
 Qed.
 
 Lemma publish_pg_accepted : forall cfg lookup now b pg pub req opts topic args kw,
-    pub_accepted cfg opts topic ->
+    pub_accepted cfg pub opts topic ->
     snd (fst (publish cfg lookup now b pg pub req opts topic args kw)) = pg + 1.
 Proof. intros. rewrite publish_unfold by auto. reflexivity. Qed.
 
@@ -141,9 +142,9 @@ Proof.
   - destruct H as [Hpg Hth]. destruct (IH _ _ Hth) as [Hgt Hnd]. fold (hist_ref cfg id t k ops).
     pose proof (bstep_pg cfg b o) as Hmono. rewrite Hpg in Hmono.
     destruct o; cbn [hist_contrib app]; try (split; [intros e He; specialize (Hgt e He); lia|exact Hnd]).
-    destruct (stored_b cfg t k opts topic) eqn:S; cbn [app]; [|split; [intros e He; specialize (Hgt e He); lia|exact Hnd]].
+    destruct (stored_b cfg pub t k opts topic) eqn:S; cbn [app]; [|split; [intros e He; specialize (Hgt e He); lia|exact Hnd]].
     cbn [bop_pg] in Hpg. subst pg0.
-    assert (Hacc : pub_accepted cfg opts topic).
+    assert (Hacc : pub_accepted cfg pub opts topic).
     { unfold stored_b in S. apply andb_prop in S. destruct S as [S _]. apply andb_prop in S. destruct S as [S _].
       now apply pub_accepted_b. }
     assert (Hnext : snd (fst (bstep cfg b (BPublish pg lookup now pub req opts topic args kw))) = pg + 1)
